@@ -5,7 +5,7 @@
    digest) - the model treats them opaquely; sequences carry real bytes (partial reads).
    The codec is the table of what the reference decoders (stdlib gzip/flate, brotli, zstd)
    made of the served bytes, supplied by the harness for exactly the calls the model makes. *)
-From ReqV Require Export Lib.Bytes Lib.PackedBytes Model.Decode Model.DecodeSession.
+From ReqV Require Export Lib.Bytes Lib.PackedBytes Model.Decode Model.DecodeSession Model.DecodeAttempts.
 
 (* How a sequence case writes a byte string: literally, or - the payloads of sequences are produced
    by a fixed generator that exists on both sides (harness/c14/seq.go genByte) - as a slice of a
@@ -58,11 +58,14 @@ Inductive c14_case :=
     (st : stack) (disable auto : bool) (ae range : bytes) (head : bool)
     (ended : bool)                       (* h2: END_STREAM on the HEADERS frame *)
     (ce clh : list bytes) (cl : Z)       (* Content-Encoding / Content-Length lines, wire ContentLength *)
-    (wire : bytes)                       (* blob of the served (framing-level) body *)
+    (short : bool)                       (* the origin ended the body cleanly short of the declared length *)
+    (wire : bytes)                       (* blob of the served (framing-level) body: the bytes that arrived *)
     (table : list (enc * (bytes * bool)))(* reference decoder on the served body: output blob, failed? *)
     (pat : list nat)                     (* caller buffer sizes, cycled *)
     (* observed on the real code *)
-    (o_seen_ae : bytes)                  (* Accept-Encoding the origin received *)
+    (o_seen_ae : bytes)                  (* Accept-Encoding the origin received (last attempt) *)
+    (o_aes : list bytes)                 (* Accept-Encoding of every attempt the origin received for this
+                                            exchange (transport-level re-send, request object sent twice) *)
     (o_ce o_clh : list bytes) (o_cl : Z) (o_unc : bool)
     (o_body : bytes) (o_err : bool)      (* blob of delivered bytes; read error other than EOF *)
     (o_sticky : bool)                    (* two more reads after the terminal error return 0 bytes + an error *)
@@ -131,7 +134,7 @@ Definition resp_model (x : c14_resp) : reqcfg * stack * resp :=
   | C14Resp st disable auto ae range head ended ce clh cl wire _ _ _ _ _ _ _ =>
       let cfg := {| q_disable := disable; q_ae := ae; q_range := range; q_head := head |} in
       let r0 := {| r_ce := ce; r_clh := clh; r_other := []; r_cl := cl; r_unc := false;
-                   r_body := Raw (pl wire) |} in
+                   r_body := Raw (pl wire); r_short := false |} in
       (cfg, st, respond st cfg auto ended r0)
   end.
 
@@ -189,15 +192,19 @@ Definition c14_check (c : c14_case) : bool :=
   match c with
   | C14Seq pool resps ops o_ops =>
       c14_seq_check (map (fun l => concat (map seg_bytes l)) pool) resps ops o_ops
-  | C14Case st disable auto ae range head ended ce clh cl wire table pat
-            o_seen_ae o_ce o_clh o_cl o_unc o_body o_err o_sticky =>
-      let cfg := {| q_disable := disable; q_ae := ae; q_range := range; q_head := head |} in
+  | C14Case st disable auto ae range head ended ce clh cl short wire table pat
+            o_seen_ae o_aes o_ce o_clh o_cl o_unc o_body o_err o_sticky =>
+      let cfg0 := {| q_disable := disable; q_ae := ae; q_range := range; q_head := head |} in
+      (* the request object as the attempts before the observed one left it *)
+      let prior := run_attempts (attempt st) (Nat.pred (length o_aes)) cfg0 in
+      let cfg := snd prior in
+      let sent := map snd (fst prior) ++ [snd (fst (attempt st cfg))] in
       let r0 := {| r_ce := ce; r_clh := clh; r_other := []; r_cl := cl; r_unc := false;
-                   r_body := Raw wire |} in
+                   r_body := Raw wire; r_short := short |} in
       let r1 := respond st cfg auto ended r0 in
       let dec := table_codec wire table in
       let sizes := cycle_sizes (S (S (table_bound wire table))) pat pat in
-      let '(b, e, rd1) := drain dec sizes (open_body (r_body r1)) in
+      let '(b, e, rd1) := drain dec sizes (open_resp r1) in
       let '(b2, e2, rd2) := rd_read dec 1 rd1 in
       let '(b3, e3, _) := rd_read dec 1 rd2 in
       let sticky := is_empty b2 && is_empty b3 &&
@@ -206,6 +213,7 @@ Definition c14_check (c : c14_case) : bool :=
                     | _, _, _ => false
                     end in
       bytes_eqb (sent_accept_encoding st cfg) o_seen_ae &&
+      (match o_aes with [] => true | _ => list_eqb bytes_eqb sent o_aes end) &&
       list_eqb bytes_eqb (r_ce r1) o_ce &&
       list_eqb bytes_eqb (r_clh r1) o_clh &&
       (r_cl r1 =? o_cl)%Z &&
